@@ -69,8 +69,7 @@ Theorem no_keyerror : forall es, nokey (run es).
 Proof.
   induction es as [|e es IH] using rev_ind; [intros e []|].
   rewrite run_snoc. set (w := run es) in *.
-  destruct e as [p|p st| |s l|s l re|]; simpl.
-  - exact IH.
+  destruct e as [p|p st| |s l|s l re| | |]; simpl; try exact IH.
   - destruct (a_find p (w_kern w)) as [[]|]; exact IH.
   - destruct (w_init w); [|exact IH]. apply fold_nokey; [exact IH|].
     intros q H. left. intros K. apply a_find_none_keys in K. contradiction.
@@ -156,7 +155,7 @@ Proof.
       apply andb_true_iff; split; [apply Z.leb_le; lia|apply Z.ltb_lt; lia|apply Z.leb_le; lia|apply Z.ltb_lt; lia].
   - apply forallb_forall. intros sid H. apply in_seq in H. unfold child_ok.
     specialize (T sid). destruct (track sid es) as [c|]; [|lia].
-    destruct T as [[Hs Hk Hw Hc Hi] Hq].
+    destruct T as [[Hs Hk Hw Hc] Hq].
     rewrite (map_nth_error sub_obs _ _ Hs), obs_eqb_refl. simpl andb.
     rewrite filter_entries, Hc. exact (obs_eqb_refl (OList (map ev_obs (c_calls c)))).
 Qed.
